@@ -487,6 +487,7 @@ int dns_decode(char *buf, size_t buflen, struct query *q, qr_t qr, char *packet,
 			readshort(packet, &data, &rlen);
 
 			rv = MIN(rlen, sizeof(rdata));
+			CHECKLEN(rv);
 			rv = readdata(packet, &data, rdata, rv);
 			if (rv >= 2 && buf) {
 				rv = MIN(rv, buflen);
@@ -517,6 +518,7 @@ int dns_decode(char *buf, size_t buflen, struct query *q, qr_t qr, char *packet,
 				/* Answer type A includes only 4 bytes.
 				   Not used for tunneling. */
 				rv = MIN(rlen, sizeof(rdata));
+				CHECKLEN(rv);
 				rv = readdata(packet, &data, rdata, rv);
 				if (rv >= 2 && buf) {
 					rv = MIN(rv, buflen);
@@ -595,6 +597,7 @@ int dns_decode(char *buf, size_t buflen, struct query *q, qr_t qr, char *packet,
 			readlong(packet, &data, &ttl);
 			readshort(packet, &data, &rlen);
 
+			CHECKLEN(rlen);
 			rv = readtxtbin(packet, &data, rlen, rdata,
 				        sizeof(rdata));
 			if (rv >= 1) {
